@@ -160,10 +160,10 @@ HasKB(c) == c \in {"KB", "Mix"}
 ---------------------------------------------------------------------------
 (* Signatures *)
 FkSeq == <<"free", "method", "cmethod", "static", "ctor", "getter", "setter",
-           "opIndex", "opCall", "opAsg", "opCast", "opEq", "opIndexRef">>
+           "opIndex", "opCall", "opAsg", "opCast", "opEq", "opIndexRef", "opInc", "opDec", "opBin">>
 FkIdx(f) == CHOOSE i \in 1..Len(FkSeq) : FkSeq[i] = f
 HasThis(s) == s.fk \notin {"free", "static", "ctor"}
-ConstThis(s) == s.fk \in {"cmethod", "getter", "opIndex", "opCast", "opEq"}
+ConstThis(s) == s.fk \in {"cmethod", "getter", "opIndex", "opCast", "opEq", "opBin"}
 NP(s) == Len(s.ps)
 (* opIndexRef:  int &operator [](K i)  is exported as the item-assignment wrapper  operator []=(K i, const int &
    assign_val): the signature carries the wrapper's two parameters, the C++ declaration has the first. *)
@@ -206,6 +206,13 @@ WellFormedSig(s) ==
        \* compound assignment: returning *this (objRef), or something else (operator -= returning int,
        \* operator *= returning an object by value)
        [] s.fk = "opAsg" -> NP(s) = 1 /\ s.nd = 0 /\ s.ret \in {"objRef", "i32", "objVal"} /\ HasK0(s.cls)
+       \* increment / decrement: prefix  K0 &operator ++()  returns the operand itself, postfix  K0 operator ++(int)
+       \* returns a NEW object holding the OLD value; the operand is modified in both
+       [] s.fk \in {"opInc", "opDec"} -> /\ s.cls = "K0" /\ s.nd = 0 /\ s.name = 0
+                                         /\ \/ s.ret = "objRef" /\ s.ps = <<>>
+                                            \/ s.ret = "objVal" /\ s.ps = <<"i32">>
+       \* a plain binary operator (operator +): const, returns a value (a new object for objVal)
+       [] s.fk = "opBin" -> NP(s) = 1 /\ s.nd = 0 /\ s.ret # "void" /\ s.name = 0
        [] s.fk = "opIndexRef" -> NP(s) = 2 /\ s.ps[1] \in {"i32", "u8", "i64", "enumC"} /\ s.ps[2] = "i32" /\ s.nd = 0
                                   /\ s.ret = "void" /\ s.name = 0
        [] s.fk = "opCast" -> s.ps = <<>> /\ s.ret \in ScalarKinds \ {"cstr"}
@@ -223,7 +230,7 @@ CallSigs(s) == {CallSig(s, k) : k \in 0..s.nd}
 \* names every parameter after its position and kind.
 
 \* two signatures that would be declared under one C++ name in one scope
-IsOperator(s) == s.fk \in {"opIndex", "opIndexRef", "opCall", "opAsg", "opEq", "ctor", "opCast"}
+IsOperator(s) == s.fk \in {"opIndex", "opIndexRef", "opCall", "opAsg", "opEq", "ctor", "opCast", "opInc", "opDec", "opBin"}
 OpGroup(s) == CASE s.fk \in {"opIndex", "opIndexRef"} -> "index"
                 [] s.fk = "opAsg" -> (CASE s.ret = "objRef" -> "asg+=" [] s.ret = "i32" -> "asg-=" [] OTHER -> "asg*=")
                 [] s.fk = "opCast" -> s.ret
@@ -328,6 +335,13 @@ NewObj(c, m) == [cls |-> c, live |-> TRUE,
                  bst |-> IF HasKB(c) THEN (m \div StMod) % StMod ELSE 0,
                  d |-> [k \in GetKinds \cup SetKinds |-> InitData(k)]]
 
+(* Virtual functions.  Some member functions of K0 are virtual and OVERRIDDEN in K1, Mix and K3 (K2 inherits
+   K0's): which function runs is decided by the class of the object, not by the class whose wrapper is
+   called - the ground truth is  base_ptr->f().  The override computes a different Mix. *)
+Virt(s) == s.fk \in {"method", "cmethod"} /\ s.cls = "K0" /\ (SigId(s) \div 4) % 3 = 0
+Overriders == {"K1", "Mix", "K3"}
+OverrideOf(s, c) == IF Virt(s) /\ c \in Overriders THEN ClsIdx(c) ELSE 0
+
 (* Sem of an ordinary (Mix-computing) function: result record
      [m, ret, heap']   where ret is the encoded value (for objVal: the state of the new object) *)
 CandSeq(s, o, args) ==
@@ -338,12 +352,12 @@ NonNull(q) == SelectSeq(q, LAMBDA x : x # 0)
 
 Sem(s, o, args, heap) ==
   LET ts == IF HasThis(s) THEN ThisState(s.cls, heap[o]) ELSE 0
-      m  == Mix(s, ts, args, heap)
+      m  == Mix(s, ts, args, heap) + (IF HasThis(s) THEN 1000003 * OverrideOf(s, heap[o].cls) ELSE 0)
       w  == Weight(s, args, heap)
       cs == NonNull(CandSeq(s, o, args))
       h1 == IF HasThis(s) /\ ~ConstThis(s) THEN [heap EXCEPT ![o] = Bump(s.cls, @, w)] ELSE heap
       h2 == TouchArgs(s.ps, args, h1, 1)
-  IN [m |-> m, ret |-> IF s.fk = "opAsg" /\ s.ret = "objRef" THEN o        \* return *this
+  IN [m |-> m, ret |-> IF s.fk \in {"opAsg", "opInc", "opDec"} /\ s.ret = "objRef" THEN o        \* return *this
                        ELSE IF cs = <<>> /\ s.ret \in {"objPtr", "objRef", "constObjRef"} THEN 0
                        ELSE Encode(s.ret, m, cs),
       heap |-> h2]
